@@ -5763,13 +5763,13 @@ impl<'a> Parser<'a> {
         let on_cluster = self.parse_optional_on_cluster()?;
 
         let like = if self.parse_keyword(Keyword::LIKE) || self.parse_keyword(Keyword::ILIKE) {
-            self.parse_object_name(allow_unquoted_hyphen).ok()
+            Some(self.parse_object_name(allow_unquoted_hyphen)?)
         } else {
             None
         };
 
         let clone = if self.parse_keyword(Keyword::CLONE) {
-            self.parse_object_name(allow_unquoted_hyphen).ok()
+            Some(self.parse_object_name(allow_unquoted_hyphen)?)
         } else {
             None
         };
